@@ -126,6 +126,10 @@ class Driver:
         elif badprop == "wrongtype":
             props = [p for p in props if p.name.lower() != "s"]
             props.append(CIMProperty("S", Uint8(3)))
+        elif badprop == "wrongnull":
+            # type differs from the class declaration, value NULL
+            props = [p for p in props if p.name.lower() != "s"]
+            props.append(CIMProperty("S", None, type="uint8"))
         elif badprop == "wrongarray":
             props = [p for p in props if p.name.lower() != "s"]
             props.append(CIMProperty("S", ["alpha"], type="string",
@@ -327,7 +331,7 @@ def random_calls(rng, n):
         vals = dict(s=tok(), t=tok(), u=tok() if cls == "B" or
                     rng.random() < 0.1 else "unset")
         bad = rng.choice(["none"] * 8 + ["undeclared", "wrongtype",
-                                         "wrongarray"])
+                                         "wrongarray", "wrongnull"])
         pls = [(), ("s",), ("t",), ("u",), ("s", "t"), ("s", "s", "t"),
                ("t", "u")]
         hp = rng.random() < 0.4
